@@ -1,7 +1,7 @@
 """C16 All output formats describe the same memory contents as the binary image."""
 import os
 
-from harness import asmcheck, runner, formats
+from harness import asmcheck, runner, formats, tlc
 from harness.render import parse_listing
 
 KINDS = {'byte', 'fill', 'i3', 'zuntil'}
@@ -119,6 +119,95 @@ def eval_corpus_formats(args):
         shutil.rmtree(d, ignore_errors=True)
 
 
+def format_records(args):
+    """Worker: one scenario (or repository program) -> records [fmt, items, mem] for Trace_Formats.tla plus the verdict of the
+    Python decoders (both must agree)."""
+    kind, a, b = args
+    recs = []
+    if kind == 'scen':
+        scen, params = a, b
+        mem = [[x, y] for x, y in scen['mem']]
+        for fmt in ('intel_hex', 'hex', 'minhex'):
+            case, _ = asmcheck.build_case(scen, params, pretty=fmt)
+            obs = runner.run_case(case)
+            if obs['status'] != 'ok' or obs.get('pretty') is None:
+                continue
+            recs.append({'fmt': fmt, 'items': formats.tokenise(fmt, obs['pretty']), 'mem': mem, 'what': ' / '.join(asmcheck._fmt(l) for l in scen['prog'])})
+    else:
+        import shutil
+        import tempfile
+        from harness import traces
+        cfg, src, inc = a
+        runner.import_repo()
+        from bespokeasm.assembler.engine import Assembler
+        for fmt in ('intel_hex', 'hex', 'minhex'):
+            d = tempfile.mkdtemp(prefix='vc16r_', dir=runner.SCRATCH_ROOT)
+            try:
+                out, pp = os.path.join(d, 'o.bin'), os.path.join(d, 'o.txt')
+                status, msg, ev, img = traces.record(lambda: Assembler(src, cfg, True, out, 0, None, 0, True, fmt, pp, 0, [inc], []).assemble_bytecode(), out)
+                if status != 'ok':
+                    continue
+                mem = {}
+                for e in ev:
+                    if e['ev'] == 'p2' and e['has_bytes'] and not e['muted']:
+                        for i, v in enumerate(e['bytes']):
+                            mem[e['addr'] + i] = v
+                recs.append({'fmt': fmt, 'items': formats.tokenise(fmt, open(pp).read()), 'mem': [[x, mem[x]] for x in sorted(mem)], 'what': os.path.basename(src)})
+            finally:
+                shutil.rmtree(d, ignore_errors=True)
+    return recs
+
+
+def run_format_traces(chk, scen_jobs):
+    """Recorded outputs against spec/Formats.tla (Describes), in batches; self-test: corrupted records must be rejected."""
+    import json
+    import tempfile
+    from harness import corpus, tlc
+    jobs = [('scen', s, p) for s, p in scen_jobs]
+    jobs += [('corpus', c, None) for c in corpus.corpus_programs() if chk.tier != 'quick' or os.path.getsize(c[1]) < 6000]
+    recs = [r for rs in runner.pmap(format_records, jobs) for r in rs]
+    # corruptions of the first records: each must be rejected
+    bad = []
+    for r in recs[:12]:
+        if not r['items']:
+            continue
+        it = json.loads(json.dumps(r['items']))
+        if r['fmt'] == 'intel_hex':
+            it[0]['chk'] = (it[0]['chk'] + 1) % 256
+        elif r['fmt'] == 'hex':
+            it[0]['addr'] += 16
+        else:
+            it.insert(0, {'k': 'addr', 'a': 1, 'data': []}) if it[0]['k'] == 'data' else it[0].update(a=it[0]['a'] + 1)
+        bad.append(dict(r, items=it, what='CORRUPTED ' + r['what']))
+        if r['mem']:
+            bad.append(dict(r, mem=r['mem'][:-1], what='CORRUPTED(mem) ' + r['what']))
+    allr = recs + bad
+    acc = set()
+    B = 400
+    for off in range(0, len(allr), B):
+        part = [{'fmt': r['fmt'], 'items': r['items'], 'mem': r['mem']} for r in allr[off:off + B]]
+        fd, path = tempfile.mkstemp(prefix='vfmt_', suffix='.json', dir=runner.SCRATCH_ROOT)
+        with os.fdopen(fd, 'w') as f:
+            json.dump(part, f)
+        try:
+            res = tlc.run_tlc('Trace_Formats', 'SPECIFICATION Spec\nINVARIANT Accepted\n', workers=8, env={'TRACE_FILE': path}, timeout=3000)
+        finally:
+            os.unlink(path)
+        chk.add_tlc(res)
+        for a in res.tags.get('ACC', []):
+            acc.add(off + a['t'] - 1)
+    for i, r in enumerate(recs):
+        chk.traces += 1
+        chk.nontriv(('fmt-trace', r['fmt'], r['what']))
+        if i not in acc:
+            chk.violation(f'{r["fmt"]} output does not describe the assembled memory contents (Formats.tla Describes): {r["what"][:160]}',
+                          {'fmt': r['fmt'], 'items': r['items'][:20], 'mem': r['mem'][:40]}, None, 'rejected by Trace_Formats', {'kind': 'format-trace'})
+    rej = sum(1 for j in range(len(recs), len(allr)) if j not in acc)
+    chk.notes['format_traces'] = {'records': len(recs), 'corrupted_records_rejected': f'{rej}/{len(bad)}'}
+    if rej != len(bad):
+        chk.machinery(f'Trace_Formats accepted {len(bad) - rej} corrupted record(s): the trace specification does not bind')
+
+
 def run(chk):
     chk.rule = ('TLC enumerates programs over AlphaC16 (sparse maps via origins / zone / alignment, muted regions, zero-length '
                 'fills and zerountil, a 7-byte fill longer than the listing row, includes, a predefined data block) for address '
@@ -127,9 +216,13 @@ def run(chk):
                 'address->byte map and must equal the specification memory map (bytes of unmuted lines), the image must equal '
                 'the specification image, and the listing must show every compilable line exactly once with its address and '
                 'bytes (none for muted lines). Non-trivial = has a byte-producing line.')
-    chk.assumptions = ['the four decoders in harness/formats.py are trusted; Intel HEX checksums and record structure are validated by the decoder',
+    chk.rule += (' spec/Formats.tla states the three machine formats as decoding machines (Intel HEX records with checksum, base records and a single final end-of-file record; dump rows of sixteen columns; minhex running address); TLC checks FunctionalWhenOk, IhxShape, PrefixMonotone, NoInventedBytes on generated outputs, and recorded outputs of a sample of scenarios and of the repository programs - tokenised without judgement - must satisfy Describes(fmt, items, memory) in spec/Trace_Formats.tla; corrupted records must be rejected.')
+    chk.assumptions = ['the listing decoder in harness/formats.py is trusted; the other three formats are decoded both by harness/formats.py and by spec/Formats.tla',
                        'minhex is read as: address lines set the running address, which starts at 0']
     chk.exhaustive = True
+    FMT_SAMPLE = []
+    import random
+    rng = random.Random(chk.seed + 16)
     for tag, params, alpha, sim in instances(chk.tier):
         params = dict(params, tag=tag)
         if sim is None:
@@ -140,6 +233,8 @@ def run(chk):
         scs = [s for s in res.emits if s['status'] == 'ok' and not s.get('open')]
         chk.notes.setdefault('instances', []).append({'tag': tag, 'scenarios': len(res.emits), 'accepted': len(scs),
                                                       'mode': 'simulate' if sim else 'exhaustive'})
+        k = 60 if chk.tier == 'quick' else 600
+        FMT_SAMPLE.extend((s, params) for s in (rng.sample(scs, k) if len(scs) > k else scs) if s['mem'])
         results = runner.pmap(eval_formats, [(s, params) for s in scs])
         for s, r in zip(scs, results):
             chk.traces += 4
@@ -161,3 +256,8 @@ def run(chk):
         if r is not None:
             chk.violation(f'{os.path.relpath(s_, corpus.REPO)}: {r}', {'path': s_, 'format': f}, None, r, {'kind': 'corpus-format'})
     chk.notes['corpus_format_runs'] = len(jobs)
+    # the formats as decoding machines of spec/Formats.tla: recorded outputs must Describe the memory contents
+    res = tlc.run_tlc('Formats', 'SPECIFICATION Spec\nCONSTANTS MaxItems = %d\nINVARIANT FunctionalWhenOk\nINVARIANT IhxShape\nINVARIANT PrefixMonotone\n'
+                      'INVARIANT NoInventedBytes\n' % (3 if chk.tier == 'quick' else 4), workers=16)
+    chk.add_tlc(res)
+    run_format_traces(chk, FMT_SAMPLE)
